@@ -248,7 +248,10 @@ CHECKS["C01"] = dict(
           "generator incl. MGET/MSET/DEL... over several nodes, unsupported names, names containing CR LF / NUL / RESP-looking text, "
           "inline form, arrays that are not commands (*0, *-1, nested, non-bulk, bare scalars)}, a fragmentation plan of the request "
           "bytes (whole, byte-wise, after every CR, random cuts snapped into CRLF), and a reply schedule (per node a cycled list of "
-          "reply delays 0..4 ms, so nodes answer out of arrival order while each backend connection stays FIFO). Oracle: the reference "
+          "reply delays 0..4 ms, so nodes answer out of arrival order while each backend connection stays FIFO); in a quarter of the "
+          "cases compression is enabled with a threshold no value reaches, so that APPEND/SETRANGE/GETRANGE/SETBIT/GETBIT/EVAL in the "
+          "pipeline are stopped by the backend-side filter (expected reply: an error); the per-backend writer is held 0/50/300/2000 us "
+          "per request at its pause point (requests queue behind it); the periodic slot refresh runs at its production rate. Oracle: the reference "
           "keyspace executes each connection's program in order; the observed reply stream must parse as well-formed RESP and equal it "
           "element by element (errors as errors); then a sentinel PING must be answered by exactly +PONG as the next reply and the "
           "connection must stay silent for 30 ms; a missing reply is a hang (20 s). Non-trivial: >= 2 nodes and the node log shows a "
